@@ -121,8 +121,9 @@ def run_chain(cfg, plan, solver_fault=None):
             tb = traceback.extract_tb(e.__traceback__)
             mici_frames = [f for f in tb if "/mici/" in f.filename]
             where = f"{mici_frames[-1].name}" if mici_frames else "?"
-            err = (type(e).__name__, repr(e)[:160], where,
-                   ">".join(f.name for f in mici_frames))
+            names = [f.name for f in mici_frames]
+            site = next((n for n in reversed(names) if n not in ("__init__", "wrapper")), "?")
+            err = (type(e).__name__, repr(e)[:160], where, ">".join(names), site)
             new, stats = None, None
         finally:
             plan.armed = False
@@ -150,16 +151,17 @@ def judge(cfg, report, plan, acc, inject):
     def viol(kind, what, obs, exp, **kw):
         acc.violation(driver="chain", config=dict(cfg, inject=inject),
                       fields={**F, "what": what, "fault_kind": inject[2] if inject else None,
-                              "callback": inject[0].split(":")[0] if inject else None},
+                              "callback": inject[0].split(":")[0] if inject else None,
+                              "site": kw.get("site")},
                       kind=kind, observed=obs, expected=exp, **kw)
 
     if "momentum_failed" in report:
         return  # faults are only armed inside the integration transition
     for it, rec in enumerate(report["iterations"]):
         if rec["err"] is not None:
-            ename, msg, where, path = rec["err"]
+            ename, msg, where, path, site = rec["err"]
             viol("exception_escaped", f"escaped:{ename}@{where}", msg,
-                 "Transition.sample returns", iteration=it, mici_frames=path,
+                 "Transition.sample returns", iteration=it, mici_frames=path, site=site,
                  in_solver=plan.fired[3] if plan.fired else None)
             return
         if not (np.all(np.isfinite(rec["pos"])) and np.all(np.isfinite(rec["mom"]))):
